@@ -135,7 +135,7 @@ pub fn matcher_cases(prop: &str, ctx: &Ctx, cfg: &GenCfg, n: u64) -> Vec<(String
     cases.extend(fixtures());
     let mut r = Rng::new(ctx.seed);
     for i in 0..n {
-        let l = if i % 3 == 2 { ledger::gen_contention(&mut r, cfg) } else { ledger::gen_ledger(&mut r, cfg) };
+        let l = if i % 16 == 7 && cfg.splits { ledger::gen_consolidation(&mut r, cfg) } else if i % 3 == 2 { ledger::gen_contention(&mut r, cfg) } else { ledger::gen_ledger(&mut r, cfg) };
         cases.push((format!("gen#{i}"), l));
     }
     cases
